@@ -228,6 +228,17 @@ def function(ex, frame, e, name, hint, want_seq):
         if name == 'any':
             return VBool(z3.Exists([k], z3.And(rng, tv)))
         return VBool(z3.ForAll([k], z3.Implies(rng, tv)))
+    if name == 'iter' and len(A) == 1:
+        return ex.as_seq(ev(A[0], want_seq=True), frame)
+    if name == 'next' and len(A) in (1, 2):
+        seq = ex.as_seq(ev(A[0], want_seq=True), frame)
+        for f in seq.facts:
+            ex.assume(f)
+        if ex.decide(seq.n > 0):
+            return seq.elem(z3.IntVal(0))
+        if len(A) == 2:
+            return ev(A[1])
+        raise E.PyRaise(StopIteration)
     if name == 'memoryview' and len(A) == 1:
         return ev(A[0])
     if name == 'bytes' and len(A) == 1:
@@ -248,6 +259,8 @@ def isinstance_model(ex, v, cls):
     pyt = None
     if hasattr(v, 'isinstance_model'):
         return v.isinstance_model(ex, classes)
+    if isinstance(v, VRef) and hasattr(v.sort, 'isinstance_hook'):
+        return v.sort.isinstance_hook(ex, v, classes)
     if isinstance(v, VBool):
         pyt = bool
     elif isinstance(v, VInt):
